@@ -47,7 +47,7 @@ impl UserName {
     where
         S: AsRef<str>,
     {
-        let name = strings::opaque_string_prepapre(value.as_ref())?;
+        let name = strings::opaque_string_enforce(value.as_ref())?;
         (name.len() < MAX_ENCODED_SIZE)
             .then(|| UserName(String::from(name.as_ref())))
             .ok_or_else(|| {
